@@ -324,7 +324,56 @@ pub fn events(args: &[String]) {
             }
         }
     }
+    // a terminal event with an occurrence count of two or three that fires — not for the last time — in the same step as, and
+    // before, another event: the other event must still be reported (and must still stop the run if it is terminal itself);
+    // everything before the stop is what the run without the terminal flags reports
+    {
+        let mut n = 0;
+        for method in ALL_METHODS {
+            for back in [false, true] {
+                for (cnt, b_terminal) in [(2usize, false), (3, false), (2, true)] {
+                    let d = if back { -1.0 } else { 1.0 };
+                    let xend = 9.0 * d;
+                    // y0 = cos t crosses 0.3 at +-1.2661, +-5.0171, +-7.5493, ...; the time event sits 0.1 after the first crossing
+                    let mut p = Prob::new(Kind::Harmonic);
+                    let mk = |p: &Prob| { let mut o = Options::builder().method(method).rtol(1e-3).atol(1e-6).build(); o.max_step = Some(0.5); if method == Method::RK4 { o.first_step = Some(0.5); } let _ = p; o };
+                    let ev_a = EventSpec { a: 0.0, b: { let mut b = vec![0.0; p.n()]; b[0] = 1.0; b }, c: 0.3, dir: 0, terminal: None };
+                    let ev_b = EventSpec { a: 1.0, b: vec![0.0; p.n()], c: 1.3661 * d, dir: 0, terminal: None };
+                    p.events = vec![ev_a.clone(), ev_b.clone()];
+                    let free = match solve_ivp(&p, 0.0, xend, &p.y0(), mk(&p)) { Ok(r) => r, Err(_) => continue };
+                    p.events = vec![EventSpec { terminal: Some(cnt), ..ev_a.clone() }, EventSpec { terminal: if b_terminal { Some(1) } else { None }, ..ev_b.clone() }];
+                    let mut why = String::new();
+                    match solve_ivp(&p, 0.0, xend, &p.y0(), mk(&p)) {
+                        Ok(sol) => {
+                            // where the run has to stop: at B if B is terminal (A has fired once before it), else at A's cnt-th crossing
+                            let stop = if b_terminal { free.t_events[1].first().copied() } else { free.t_events[0].get(cnt - 1).copied() };
+                            match stop {
+                                None => why = "the free run does not contain the stopping event".into(),
+                                Some(ts) => {
+                                    if sol.status != Status::UserInterrupt { why = format!("status {:?}, expected UserInterrupt at {}", sol.status, ts); }
+                                    else if (sol.t.last().copied().unwrap_or(f64::NAN) - ts).abs() > 1e-9 { why = format!("the run stops at {:?}, the stopping event of the run without terminal flags is at {}", sol.t.last(), ts); }
+                                    else {
+                                        for i in 0..2 {
+                                            let want: Vec<f64> = free.t_events[i].iter().cloned().filter(|t| (t - ts) * d <= 1e-9).collect();
+                                            if sol.t_events[i].len() != want.len() || sol.t_events[i].iter().zip(want.iter()).any(|(a, b)| (a - b).abs() > 1e-9) {
+                                                why = format!("event {}: the terminal run reports {:?}, the run without terminal flags reports {:?} up to the stop at {}", i, sol.t_events[i], want, ts); break;
+                                            }
+                                        }
+                                    }
+                                }
+                            }
+                        }
+                        Err(e) => why = format!("solve_ivp error {:?}", e),
+                    }
+                    println!("{{\"kind\":\"ev\",\"case\":{},\"problem\":\"Harmonic\",\"method\":\"{}\",\"x0\":0,\"xend\":{},\"count\":{},\"other_terminal\":{},\"branch\":\"counted-terminal-then-other-event\",\"finding_key\":\"{}\",\"ok\":{},\"why\":{:?}}}",
+                        630000 + n, method_name(method), xend, cnt, b_terminal, if why.is_empty() { "" } else { "c10-prefix" }, why.is_empty(), why);
+                    n += 1;
+                }
+            }
+        }
+    }
     first_output_before_terminal();
+    empty_state_events();
 }
 
 /// y0' = 1 (a ramp), y1' = -y1; one event function g = exp(k (u - c)) - 1 with u = t or u = y0
@@ -335,6 +384,39 @@ impl IVP for HardEv {
     fn events(&self, x: f64, y: &[f64], out: &mut [f64]) {
         let u = if self.use_state { y[0] } else { x };
         out[0] = (self.k * (u - self.c)).exp() - 1.0;
+    }
+}
+
+/// no state at all: the only thing an event function can depend on is t
+struct NoStateEv { c: f64 }
+impl IVP for NoStateEv {
+    fn ode(&self, _x: f64, _y: &[f64], _d: &mut [f64]) {}
+    fn n_events(&self) -> usize { 1 }
+    fn events(&self, x: f64, _y: &[f64], out: &mut [f64]) { out[0] = x - self.c; }
+}
+
+/// C09 on an empty state vector: `solve_ivp` answers at once with t = [x0, xend] (or t_eval) and Success; g = t - c has strictly
+/// opposite signs at the two reported points, so exactly one event near c has to be among the results.
+fn empty_state_events() {
+    let mut k = 0;
+    for method in ALL_METHODS {
+        for (x0, xend, c) in [(0.0, 1.0, 0.5), (1.0, 0.0, 0.25), (-3.0, 5.0, 4.9)] {
+            let f = NoStateEv { c };
+            let o = Options::builder().method(method).build();
+            let mut why = String::new();
+            match solve_ivp(&f, x0, xend, &[], o) {
+                Ok(sol) => {
+                    let signs_differ = sol.t.len() >= 2 && (sol.t[0] - c) * (sol.t[sol.t.len() - 1] - c) < 0.0;
+                    let n = sol.t_events.get(0).map(|v| v.len()).unwrap_or(0);
+                    if signs_differ && n != 1 { why = format!("empty state: reported times {:?} ({:?}), g = t - {} changes sign between them, {} events reported", sol.t, sol.status, c, n); }
+                    else if n == 1 && (sol.t_events[0][0] - c).abs() > 1e-9 { why = format!("empty state: event reported at {:?}, root at {}", sol.t_events[0][0], c); }
+                }
+                Err(e) => why = format!("solve_ivp error {:?}", e),
+            }
+            println!("{{\"kind\":\"ev\",\"case\":{},\"problem\":\"NoState\",\"method\":\"{}\",\"x0\":{},\"xend\":{},\"root\":{},\"branch\":\"empty-state\",\"finding_key\":\"{}\",\"ok\":{},\"why\":{:?}}}",
+                660000 + k, method_name(method), x0, xend, c, if why.is_empty() { "" } else { "c09-empty-state" }, why.is_empty(), why);
+            k += 1;
+        }
     }
 }
 
@@ -482,8 +564,10 @@ fn teval_just_after_step_end(seed: u64) {
             let c = g + d * 2e-13;
             let req = g + d * 8e-13;
             p.events = vec![EventSpec { a: 1.0, b: vec![0.0; p.n()], c, dir: 0, terminal: Some(1) }];
+            // one requested time just after the step end, two of them, the same one twice, or three with one before the step end
+            for reqs in [vec![req], vec![g + d * 5e-13, req], vec![req, req], vec![g - d * 0.01, g + d * 4e-13, g + d * 6e-13, req]] {
             let mut o = mk();
-            o.t_eval = Some(vec![req]);
+            o.t_eval = Some(reqs.clone());
             let mut why = String::new();
             let mut extra = String::new();
             if let Ok(sol) = solve_ivp(&p, 0.0, xend, &y0, o) {
@@ -493,9 +577,10 @@ fn teval_just_after_step_end(seed: u64) {
                 }
                 if why.is_empty() { if let Some(w) = sol.t.windows(2).find(|w| (w[1] - w[0]) * d < 0.0) { why = format!("sample times {:?} then {:?} go backwards", w[0], w[1]); } }
             }
-            println!("{{\"kind\":\"te\",\"case\":{},\"problem\":\"{:?}\",\"method\":\"{}\",\"x0\":0,\"xend\":{},\"n_requested\":1,\"branch\":\"teval-just-after-step-end\",\"finding_key\":\"{}\",{}\"ok\":{},\"why\":{:?}}}",
-                720000 + k, kind, method_name(method), xend, if why.is_empty() { "" } else { "c10-sample-after-terminal" }, extra, why.is_empty(), why);
+            println!("{{\"kind\":\"te\",\"case\":{},\"problem\":\"{:?}\",\"method\":\"{}\",\"x0\":0,\"xend\":{},\"n_requested\":{},\"branch\":\"teval-just-after-step-end\",\"finding_key\":\"{}\",{}\"ok\":{},\"why\":{:?}}}",
+                720000 + k, kind, method_name(method), xend, reqs.len(), if why.is_empty() { "" } else { "c10-sample-after-terminal" }, extra, why.is_empty(), why);
             k += 1;
+            }
         }
     }
 }
